@@ -26,7 +26,7 @@ func init() {
 			"{type1 key A, type1 key A', type1 unknown key id, type1 malformed element (A), type1 malformed element (A'), type2 key B, type2 unknown key id, type2 malformed element} under 9 issuer configurations ({A}, {B}, {A,A',B}, two with an always-refusing issuer of the same type and truncated key id registered before / after the real one, none at all, the same issuer twice, another order), a sweep of the unknown-key-id kinds over every truncated key id no configured issuer carries, plus seeded sequences of length 5..40 and large batches of 63..128 requests (response lists around the 16384-byte varint boundary). " +
 			"Oracle = executable model: entry i present iff some configured issuer has the request's type and last key-id byte and its own Evaluate of that request succeeds; the output decodes, has exactly n entries in order, present entries finalize under state i to a token valid under that issuer's key (circl FullEvaluate / rsa.VerifyPSS), absent ones are empty; the succeeding requests alone give an all-present batch. " +
 			"distinct_nontrivial = distinct (configuration, kind sequence) batches containing at least one failing and one succeeding request",
-		Floors:      []string{"batches_checked", "entries_present_valid", "entries_absent", "mixed_batches", "all_failing_batches", "all_succeeding_batches", "isolation_rechecked", "large_batches", "batches_handed_over_in_memory", "unknown_key_id_sweep", "colliding_working_issuers_first_configured_serves", "batch_evaluated_across_a_process_suspension"},
+		Floors:      []string{"batches_checked", "entries_present_valid", "entries_absent", "mixed_batches", "all_failing_batches", "all_succeeding_batches", "isolation_rechecked", "large_batches", "batches_handed_over_in_memory", "unknown_key_id_sweep", "colliding_working_issuers_first_configured_serves", "batch_evaluated_across_a_process_suspension", "batches_with_a_repeated_request"},
 		Assumptions: []string{"configured issuers of one type have pairwise different last key-id bytes and unknown keys differ from all of them (truncated-id collisions are outside the statement)"},
 		Run:         runC05,
 	})
@@ -284,6 +284,22 @@ func (w *c05World) runBatch(ci int, kinds []c05Kind, r *core.Rand, recheck bool,
 		reqs[i] = w.mkReq(k, r, inMemory)
 		list = append(list, reqs[i].req)
 		name += fmt.Sprintf("%d", int(k))
+	}
+	// one batch in four carries a request twice (the very same request, byte for byte: a client that retries inside a
+	// batch): each copy has its own entry, decided like the original and finalizable under the same state
+	if len(reqs) >= 2 && len(reqs) < 200 && r.IntN(4) == 0 {
+		for n := 1 + r.IntN(2); n > 0; n-- {
+			j := r.IntN(len(reqs))
+			at := r.IntN(len(reqs) + 1)
+			reqs = append(reqs[:at], append([]*c05Req{reqs[j]}, reqs[at:]...)...)
+			kinds = append(kinds[:at:at], append([]c05Kind{reqs[at].kind}, kinds[at:]...)...)
+		}
+		list = list[:0]
+		for _, q := range reqs {
+			list = append(list, q.req)
+		}
+		name += "+dup"
+		c.Class("batches_with_a_repeated_request")
 	}
 	c.Eval(1)
 	c.Note("EvaluateBatch " + name)
